@@ -42,6 +42,16 @@ def matmulT (a bT : List (List K)) : Option (List (List K)) := Py.mapOpt (fun r 
 /-- `m + c` for a 2-d array and a scalar -/
 def addScalar2 (m : List (List K)) (c : K) : List (List K) := m.map fun r => r.map fun x => x + c
 
+/-- `m == c` for a 2-d float array and a scalar: the elementwise boolean mask (`K` has a decidable order only: neither `x < c` nor `c < x`) -/
+def eqScalar2 (m : List (List K)) (c : K) : List (List Bool) := m.map fun r => r.map fun x => !(decide (x < c) || decide (c < x))
+
+/-- `np.where(mask, c, m)` for a 2-d boolean mask, a scalar and a 2-d float array of EQUAL shape: `c` where the mask holds, else the entry
+of `m` (numpy would also broadcast; unequal shapes raise here) -/
+def whereS2 (mask : List (List Bool)) (c : K) (m : List (List K)) : Option (List (List K)) :=
+  if mask.length = m.length then
+    Py.mapOpt (fun p => if p.1.length = p.2.length then some (List.zipWith (fun (b : Bool) x => if b then c else x) p.1 p.2) else none) (List.zip mask m)
+  else none
+
 /-- `a / b` on 2-d float arrays of equal shape (a zero divisor would be `inf` / `nan`: raises) -/
 def div2 [Py.Fld K] (a b : List (List K)) : Option (List (List K)) :=
   if a.length = b.length then Py.mapOpt (fun p => if p.1.length = p.2.length then Py.mapOpt (fun q => Py.fdiv q.1 q.2) (List.zip p.1 p.2) else none) (List.zip a b)
